@@ -24,6 +24,7 @@ RULES_DOC = dict(common.SHARED_DOC)
 RULES_DOC["R8"] = "= C01.R5: a unit cancelled in a yield-family callback is not pushed back to its pool (a joiner is released once and the terminated unit never runs again)"
 RULES_DOC["R9"] = "= C18.R6: a failed step leaves the descriptor it was given unchanged (a revive that fails does not leave a TERMINATED unit marked READY, on which a join or free would never return)"
 RULES_DOC["X4"] = common.X4_DOC
+RULES_DOC["R10"] = "= C06.R1-R4: a joiner that blocks is counted on the pool it will be resumed on, and is pushed before it stops being counted (a join whose caller is stranded in a dead pool never returns although the target terminated)"
 RULES_DOC.update({
     "R1": "every return of thread_join (and of its waiting helpers) follows an acquire-load observation state == TERMINATED",
     "R2": "joiner: fetch_or(REQ_JOIN) before suspending, suspend only if none was pending; BLOCKED before the p_link release-store; futex dummy prepared before p_link is published",
@@ -604,3 +605,6 @@ def run(P, rep, tier):
     common.borrow(rep, P, C01.rule_R5, "R8")
     from . import c18_commit
     common.borrow(rep, P, c18_commit.rule_R6, "R9")
+    from . import C06
+    common.borrow(rep, P, C06.rule_R1_R3_R4, "R10")
+    common.borrow(rep, P, C06.rule_R2, "R10")
